@@ -89,7 +89,14 @@ class Uids:
 
 def fn_spec(kind):
     if kind == "derive":
-        return st.just({"kind": "derive", "fl": "def", "susp": 0, "fault": None})
+        return st.sampled_from(["derive"] * 5 + ["late-aw"]).map(
+            lambda k: {"kind": k, "fl": "def", "susp": 0, "fault": None})
+    if kind == "oddkey":
+        # keys ordered through < only; == says "equal to everything" or raises
+        mode = st.sampled_from(["all", "raise"])
+        return st.tuples(mode, st.lists(st.integers(0, 2), min_size=1, max_size=5)).map(
+            lambda t: {"kind": "table", "table": [["O", k, t[0]] for k in t[1]], "fl": "def", "susp": 0,
+                       "fault": None})
     if kind == "pred":
         table = st.lists(TRUTHY_PRIMS, min_size=1, max_size=6)
     else:  # key
@@ -148,6 +155,8 @@ def base_case(draw, name, max_len=8, max_src=4, steps="full", min_len=0, min_src
     for role, fnkind in tool.optional_roles:
         if draw(st.booleans()):
             fns[role] = draw(fn_spec(_role_kind(role, fnkind)))
+            if role == "key" and name in ("sorted", "min", "max") and draw(st.integers(0, 5)) == 0:
+                fns[role] = draw(fn_spec("oddkey"))
     params = {}
     v = {}
     total = sum(len(s["items"]) for s in srcs)
@@ -196,7 +205,16 @@ def base_case(draw, name, max_len=8, max_src=4, steps="full", min_len=0, min_src
                 keyf = lambda it: table_key(fns["key"], it)  # noqa: E731
             else:
                 keyf = lambda it: it[1]  # noqa: E731
-            s["items"] = sorted(s["items"], key=keyf, reverse=params["reverse"])
+            # items whose comparison raises stay where they were drawn; the others are sorted around them
+            plain = sorted((it for it in s["items"] if it[0] != "G"), key=keyf, reverse=params["reverse"])
+            merged, k = [], 0
+            for it in s["items"]:
+                if it[0] == "G":
+                    merged.append(it)
+                else:
+                    merged.append(plain[k])
+                    k += 1
+            s["items"] = merged
     elif name == "sum":
         choice = draw(st.integers(0, 3))
         if choice:
